@@ -57,9 +57,6 @@ PROPERTY_INVS = (
     "BlocksShape",
 )
 
-SYSTEM_OPS = ("lhs", "rhs", "system", "functional")
-
-
 def _seq(t):
     return "<<" + ", ".join(str(x) for x in t) + ">>"
 
@@ -345,10 +342,13 @@ def sample_programs(uni, seed, n):
     rng = random.Random(seed * 104729 + hash_name(uni.name) + 7)
     shapes0 = [sh for _, _, _, sh in uni.args] + [sh for _, sh in uni.allcoefs] + [() for _ in uni.lits]
     kinds0 = ["arg"] * len(uni.args) + ["coef"] * len(uni.allcoefs) + ["lit"] * len(uni.lits)
+    degs0 = [frozenset({(1, 0) if num == 0 else (0, 1)}) for _, num, _, _ in uni.args] + [frozenset({(0, 0)})] * (len(uni.allcoefs) + len(uni.lits))
     for op, args, mi in uni.prelude:
         xs = [shapes0[i - 1] for i in args]
         shapes0.append(_op_shape(op, xs))
         kinds0.append(op)
+        degs0.append(_op_degs(op, [degs0[i - 1] for i in args]))
+    pure = uni.formops == {"extract_blocks"}  # only purely bilinear / linear forms are block-extracted
     ops = sorted(uni.ops)
     maxd = uni.depth or uni.maxnodes
     out = []
@@ -356,7 +356,7 @@ def sample_programs(uni, seed, n):
     tries = 0
     while len(out) < n and tries < 60 * n:
         tries += 1
-        shapes, kinds = list(shapes0), list(kinds0)
+        shapes, kinds, degs = list(shapes0), list(kinds0), list(degs0)
         prog = []
         unused = []
         depth = rng.randint(2, maxd)
@@ -394,9 +394,13 @@ def sample_programs(uni, seed, n):
                     continue
                 if op in ("add", "sub", "mul", "div") and all(kinds[i - 1] == "lit" for i in a):
                     continue
+                dg = _op_degs(op, [degs[i - 1] for i in a])
+                if pure and not all(d[0] <= 1 and d[1] <= 1 for d in dg):
+                    continue
                 prog.append({"op": op, "args": a, "mi": mi})
                 shapes.append(sh)
                 kinds.append(op)
+                degs.append(dg)
                 nid = len(shapes)
                 unused = [u for u in unused if u not in a] + [nid]
                 break
@@ -404,8 +408,13 @@ def sample_programs(uni, seed, n):
             continue
         last = len(shapes)
         roots = [last]
+        ok_class = ({(1, 1)}, {(1, 0)}) if pure else None
+        if pure and degs[last - 1] not in ok_class:
+            continue
+        if not pure and rng.random() < 0.6 and not degs[last - 1] <= {(0, 0), (1, 0), (1, 1)}:
+            continue  # favour forms of the property's class
         if uni.keypairs and rng.random() < 0.35:
-            cands = [u for u in unused if u != last and shapes[u - 1] == ()]
+            cands = [u for u in unused if u != last and shapes[u - 1] == () and (not pure or degs[u - 1] == degs[last - 1])]
             if cands:
                 roots = [rng.choice(cands), last]
         # drop nodes that no root uses, renumber
@@ -435,6 +444,27 @@ def sample_programs(uni, seed, n):
         seen.add(key)
         out.append({"prog": newprog, "ints": ints})
     return out
+
+
+def _op_degs(op, ds):
+    """mirror of OpDegs"""
+    A, B = ds[0], ds[-1]
+    Z, NL = frozenset({(0, 0)}), frozenset({(3, 3)})
+    if op in ("add", "sub"):
+        return A | B
+    if op in ("neg", "conj", "real", "imag", "var", "index"):
+        return A
+    if op in ("mul", "inner", "dot", "outer"):
+        return frozenset((min(a[0] + b[0], 3), min(a[1] + b[1], 3)) for a in A for b in B)
+    if op == "div":
+        return A if B == Z else NL
+    if op == "abs":
+        return Z if A == Z else NL
+    if op == "pow":
+        return Z if A == Z and B == Z else NL
+    if op == "list":
+        return frozenset().union(*ds)
+    raise MachineryError(f"no degrees for {op}")
 
 
 def _op_shape(op, xs):
@@ -956,7 +986,6 @@ def check_record(w, rec, corrupt=False):
     valid = rec["valid"]
     has_trial = any(a.number() == 1 for a in form_arguments(F))
     outs = real_ops(w, F, fop, has_trial)
-    nout = len(rec["rej"])
     aslots = adjoint_slots(w) if fop == "adjoint" else None
     oslots = aslots or slots
     onr, onc = (nc, nr) if fop == "adjoint" else (nr, nc)
@@ -969,7 +998,9 @@ def check_record(w, rec, corrupt=False):
             if prej:
                 cnt("refused_as_modelled")
                 if valid:
-                    cnt("valid_form_refused_by_documented_limitation")
+                    # list tensors with components of different arity (lhs / rhs / functional / action on
+                    # parts), arity / space guards of adjoint and energy_norm, action without arguments
+                    cnt(f"in_class_refused_by_design:{fop}")
             elif valid:
                 findings.append(Finding("violation", f"{PID}:{fop}:{kind}:refuses-valid-form:{type(val).__name__}",
                                         f"{label}({w.text(rec)}) raised {type(val).__name__}: {val}", {"label": label}))
@@ -1217,11 +1248,11 @@ def universes(tier):
     ]
     if not q:
         out += [
-            Uni("scalar3-wide", "none", [()], [()], [f, g], {"add", "sub", "mul", "div"}, 3, ("system", "functional"), exclude=("two", "w_u", "g")),
+            Uni("scalar3-wide", "none", [()], [()], [f], {"sub", "mul", "div"}, 3, ("system", "functional"), exclude=("two", "w_u")),
             Uni("scalar-ops3", "none", [()], [()], [f], {"add", "mul", "conj", "real", "abs", "var"}, 3, MAIN, exclude=("two", "w_u")),
             Uni("vector3", "none", [(2,)], [(2,)], [f, W2], {"add", "mul", "inner", "index"}, 3, MAIN, exclude=("two", "w_u", "W")),
             Uni("melem3", "element", [(), (), ()], [(), (), ()], [f], {"add", "mul"}, 2, MAIN, exclude=("two", "w_u", "v", "u")),
-            Uni("mspace3", "space", [(), ()], [(), ()], [f], {"add", "mul"}, 3, MAIN, exclude=("two", "w_u0", "w_u1")),
+            Uni("mspace3", "space", [(), ()], [(), ()], [], {"add", "mul"}, 3, ("system", "action", "adjoint"), exclude=("two", "w_u0", "w_u1")),
             Uni("mspace-3parts", "space", [(), (), (2,)], [(), (), (2,)], [f], {"add", "mul", "inner", "index"}, 2, MAIN, exclude=("two", "w_u0", "w_u1", "w_u2")),
             Uni("mspace-rect", "space", [(), (2,)], [(2,), ()], [f, W2], {"add", "mul", "inner", "index"}, 2, MAIN, exclude=("two", "w_u0", "w_u1", "w_v0", "w_v1")),
             # sampled deeper programs (drawn here with ctx.seed, validated and predicted by TLC)
@@ -1341,16 +1372,24 @@ def run(ctx, args):
 
 
 def selftest(ctx):
+    """corrupt the prediction (one entry of the input table / of the first output table / the refusal
+    flag) of every behaviour: the replay must reject every corrupted behaviour"""
     uni = Uni("selftest", "none", [()], [()], [("f", ())], {"add", "mul"}, 2, ("system", "action", "adjoint"), exclude=("two", "w_u"))
-    for corrupt in ("input", "output"):
-        coefval, res = run_tlc(uni, ctx.seed)
-        tlc.require_ok(res, "selftest")
-        recs = tlc.decode_prints(res)[:200]
-        results, stats = replay_records(ctx, __name__, uni, coefval, recs, corrupt, procs=1)
-        rejected = sum(1 for _, fs in results if any(f.kind in ("binding", "conformance") for f in fs))
-        print(f"selftest: corrupted one predicted {corrupt} table entry per behaviour: {rejected}/{len(results)} rejected", flush=True)
-        if rejected < len([r for r, _ in results]) * 0.9:
-            raise MachineryError(f"selftest: corrupted {corrupt} tables were accepted")
+    coefval, res = run_tlc(uni, ctx.seed, small=True)
+    tlc.require_ok(res, "selftest")
+    recs = tlc.decode_prints(res)[:200]
+    clean, _ = replay_records(ctx, __name__, uni, coefval, recs, False, procs=1)
+    if any(fs for _, fs in clean):
+        raise MachineryError("selftest: the uncorrupted behaviours are not clean")
+    for corrupt in ("input", "output", "refusal"):
+        sel = [r for r in recs if not any(r["rej"])] if corrupt == "output" else recs
+        if corrupt == "refusal":
+            sel = [dict(r, rej=[not x for x in r["rej"]]) for r in recs]
+        results, stats = replay_records(ctx, __name__, uni, coefval, sel, corrupt, procs=1)
+        rejected = sum(1 for _, fs in results if fs)
+        print(f"selftest: corrupted the predicted {corrupt} of every behaviour: {rejected}/{len(results)} rejected", flush=True)
+        if rejected < len(results) or not results:
+            raise MachineryError(f"selftest: corrupted {corrupt} predictions were accepted")
     print("selftest ok", flush=True)
 
 
